@@ -18,6 +18,9 @@ def positions(n_bytes, tier, rng):
     if tier == "quick":
         body = sorted(set([29, 30, 36, 37, n_bytes - 17, n_bytes - 16, n_bytes - 1] + rng.sample(body, min(6, len(body)))))
         body = [p for p in body if 29 <= p < n_bytes]
+    elif tier == "stride":
+        # long cells in the thorough tier: the first 24 and the last 24 body bytes (nonce / counter, tag) and every 16th between
+        body = sorted(set(body[:24] + body[-24:] + body[::16]))
     return hdr + body
 
 
@@ -178,7 +181,10 @@ def run(tier, seed, replay=None):
             w = R.world("line4", seed * 100 + goal * 10 + size % 7)
             try:
                 p = 1      # payload numbers are per world (the spec numbers them 1, 2, ... in sending order)
-                gone = K.guarded(w, tamper_walk, w, tier if size in (0,) or tier == "thorough" else "quick", rng, "o", goal, size, p)
+                # (every byte of the short cells; thorough: a stride over the long ones - a walk over every byte of a
+                # 1.4 kB cell on six links is some 30 000 recorded steps, hours of sequential trace validation)
+                wt = tier if size in (0, 1) else ("stride" if tier == "thorough" else "quick")
+                gone = K.guarded(w, tamper_walk, w, wt, rng, "o", goal, size, p)
                 tr = {"events": w.events, "topology": "line4", "seed": seed, "profile": "tamper-walk g%d s%d" % (goal, size),
                       "aborted": gone}
                 K.check_escapes(ctx, w, tr, "tamper-walk")
@@ -187,7 +193,7 @@ def run(tier, seed, replay=None):
             finally:
                 w.close()
     # (one JVM per few walks: a thorough walk alters every byte and is thousands of events long)
-    step = 15 if tier == "quick" else 2
+    step = 15 if tier == "quick" else 3
     for i in range(0, len(walks), step):
         K.validate_family(ctx, PID, walks[i:i + step], "line4", hdr, "tamper-walk" + ("[%d]" % (i // step) if step < 15 else ""),
                           NONTRIVIAL, timeout=1800 if tier == "quick" else 10000)
